@@ -9,6 +9,8 @@ from .n0struct_logging import (
     n0pretty,
 )
 # ******************************************************************************
+_NOT_FOUND = object()  # private marker of first(): told apart from every value a caller can pass as if_not_found
+# ******************************************************************************
 # ******************************************************************************
 class n0list_(list):
     def findall(self, xpath: str, raise_exception: bool = True):
@@ -95,7 +97,10 @@ class n0list_(list):
         If any of [where1][where2]...[whereN] are not found, if_not_found will be returned
         If self[where1/where2/.../whereN] is list, thet the first element will be returned
         """
-        result = self._get(xpath, raise_exception = False, if_not_found = if_not_found, return_lists = False)
+        # only a FOUND single-element list is replaced by its element: the caller's if_not_found must come back as it is
+        result = self._get(xpath, raise_exception = False, if_not_found = _NOT_FOUND, return_lists = False)
+        if result is _NOT_FOUND:
+            return if_not_found
         if isinstance(result, (list, tuple)) and len(result) == 1:
             result = result[0]
         return result
